@@ -70,7 +70,7 @@ SOFT_RULES = {
     "PARENT-WALK", "KIND-BRANCH", "SORT-GUARD", "EXH-5", "LIMIT", "REGEX-FULL", "RANGE-GUARD", "EXIST-CMP", "DATAID-DEF", "ITER-NORET",
     "FRAME", "STALE-ALIAS",
     # rules that were derived from individual seeded changes and look at one construct each
-    "UNIQ-SCOPE", "SLOT-NEW", "REC-FWD", "MOVE-ORDER", "ALIAS-ARG", "PRED-NORM", "GUARD-TREE", "DATA-IS",
+    "UNIQ-SCOPE", "SLOT-NEW", "REC-FWD", "MOVE-ORDER", "ALIAS-ARG", "PRED-NORM", "GUARD-TREE", "DATA-IS", "CACHE-INVAL", "RET-USED",
 }
 
 
